@@ -467,7 +467,12 @@ def rule_d(ck, u):
                 en = p.calls('varint_encode_%s%d' % (sgn, w))
                 sk = p.calls('sink_put_chunk')
                 if not sp and len(en) == 1 and len(sk) == 1:
-                    ok, detail = None, 'the scratch buffer is not set up by byte_buffer_space (an initialiser or another helper): the rule reads the capacity off that call'
+                    bb = [x for x in cast.walk(f) if cast.kind(x) == 'VarDecl' and ('ByteBuffer' in cast.qual_type(x) or 'byte_buffer' in cast.qual_type(x))]
+                    other = [c_ for c_ in p.calls() if c_.name.startswith('byte_buffer_')]
+                    if any(x.get('inner') for x in bb) or other:
+                        ok, detail = None, 'the scratch buffer is set up by an initialiser or another helper, not by byte_buffer_space: the rule reads the capacity off that call'
+                    else:
+                        ok, detail = False, 'the scratch ByteBuffer is handed to the encoder without having been set up (no byte_buffer_space, no initialiser): data, size and used are indeterminate'
                     break
                 if len(sp) != 1 or len(en) != 1 or len(sk) != 1:
                     ok, detail = False, 'expected space/encode/put sequence'
